@@ -9,6 +9,11 @@ from sysmodels import is_h, mget, some, NONE
 import sysmodels as S
 
 
+class MissingHandle(Unsupported):
+    """a script step needs a handle that an earlier step failed to produce (e.g. an upgrade that returned None): the
+    client gives up there - what the earlier step returned is what the oracles judge"""
+
+
 class MailboxProgram(Program):
     def __init__(self, sysm, cap, scripts, max_steps=60, handler_pending=0, strategy='RestartOnly', timeout=False, pre=()):
         super().__init__(sysm, max_steps=max_steps)
@@ -24,7 +29,7 @@ class MailboxProgram(Program):
         S.touch(st, ('h', name), True)
         oid = st.meta.get(('h', name))
         if oid is None or st.objs.get(oid) is TOMB:
-            raise Unsupported(f"script uses missing handle {name}")
+            raise MissingHandle(f"script uses missing handle {name}")
         return oid
 
     def href(self, st, name, mut=False):
@@ -80,12 +85,12 @@ class MailboxProgram(Program):
         if getattr(self, 'timeout_cfg', None):
             # EnvironmentConfig { timeout: Some(ticks), fail_on_timeout } through the real with_config
             ticks, fail = self.timeout_cfg
-            cfg = VAgg(name='EnvironmentConfig', fields={('f', 0): some(VAgg(name='Duration', extra={'ticks': ticks})), ('f', 1): VScalar(bool(fail))},
+            cfg = VAgg(name='EnvironmentConfig', fields={('f', 0): some(VAgg(name='Duration', extra={'ticks': ticks})) if ticks is not None else NONE, ('f', 1): VScalar(bool(fail))},
                        extra={'fieldnames': ('timeout', 'fail_on_timeout')})
             st, env = self.call(st, 'Environment::<A, R>::with_config', [env, cfg])
         if getattr(self, 'stream', False):
             # a stream-attached actor: the stream is a scripted queue fed by client operations (feed / end_stream)
-            st.meta['ustream'] = S.mobj(st, 'ustream', items=(), closed=False, ended=False)
+            st.meta['ustream'] = S.mobj(st, 'ustream', items=(), closed=False, ended=False, repeat=(self.stream == 'repeat'), count=0)
             st, la = self.call(st, 'Environment::<A, R>::create_loop_on_stream::<S>', [env, VSym('actor0', 'A'), VSym('stream', 'S')])
         else:
             st, la = self.call(st, 'Environment::<A, R>::create_loop', [env, VSym('actor0', 'A')])
@@ -142,6 +147,9 @@ class MailboxProgram(Program):
             # await a clone of the address
             s2, c = self.call(st, '<Addr<A> as Clone>::clone', [self.href(st, op[1])])
             yield s2, c
+        elif k == 'await_mut':
+            # (&mut addr).await: the handle stays with the client and is used again afterwards
+            yield st, self.href(st, op[1], True)
         elif k == 'clone':
             s2, c = self.call(st, '<Addr<A> as Clone>::clone', [self.href(st, op[1])])
             self.put(s2, op[2], c)
@@ -530,6 +538,9 @@ def oracle_liveness_flags(tr, scripts):
             val = e[4] == '1'
             says_stopped = val if e[3] != 'running' else not val
             begin = next(j for j in range(i, -1, -1) if tr[j][0] == 'op_begin' and tr[j][1] == e[1] and tr[j][2] == e[2])
+            if e[4] == 'panic' or any(x[0] == 'panic' for x in tr[begin:i]):
+                v.append(f"{e[3]}() panicked (Shared future polled again after completion): the handle, or the handle it was cloned / downgraded from, had been awaited to completion before")
+                continue
             if term is not None and begin > term and not says_stopped:
                 polled = any(x[0] == 'shared_complete' for x in tr[:begin])
                 v.append(f"{e[3]}() reports not-stopped after the actor terminated ({'an address was awaited before' if polled else 'no address was ever awaited'})")
@@ -625,6 +636,8 @@ def oracle_stream(tr, status, scripts):
     v = []
     fed = [e[1] for e in tr if e[0] == 'stream_feed']
     yielded = [e[1] for e in tr if e[0] == 'stream_yield' and e[1] != 'end']
+    if not fed and yielded and all(re.fullmatch(r'r\d+', str(y)) for y in yielded):
+        fed = list(yielded)       # a stream that is ready at every poll (mode 'repeat'): it yields r1, r2, ... by itself
     handled = [str(e[4]) for e in tr if e[0] == 'user_call' and e[1] == 'stream']
     done = [str(e[4]) for e in tr if e[0] == 'user_done' and e[1] == 'stream']
     def ids(xs):
